@@ -351,7 +351,33 @@ func runCase(rq *request) M {
 		}
 	}
 
-	input := unproject(rq.Inp)
+	var input interface{}
+	if gb(rq.Flags, "share") {
+		input = unprojectShared(rq.Inp, map[string]interface{}{})
+	} else {
+		input = unproject(rq.Inp)
+	}
+	if gb(rq.Flags, "bindinput") {
+		// variables bound to nodes of the caller's document itself (C07)
+		vars["v"] = input
+		binds := []interface{}{[]interface{}{"v", rq.Inp}}
+		if m, ok := input.(map[string]interface{}); ok {
+			if a, ok := m["a"]; ok {
+				vars["w"] = a
+				pa, _ := project(a)
+				binds = append(binds, []interface{}{"w", pa})
+			}
+		}
+		rq.Binds = append(rq.Binds, binds...)
+		ev["binds"] = rq.Binds
+		if err := e.RegisterVars(map[string]interface{}{"v": vars["v"]}); err != nil {
+			ev["out"] = M{"o": "bad", "why": "RegisterVars: " + err.Error()}
+			return ev
+		}
+		if w, ok := vars["w"]; ok {
+			e.RegisterVars(map[string]interface{}{"w": w})
+		}
+	}
 	out, rawRes := safeEvalRaw(e, input)
 	ev["out"] = out
 
@@ -409,7 +435,63 @@ func runCase(rq *request) M {
 	if canon(out2) != canon(out) {
 		ev["out2"] = out2
 	}
+	// ... and a third one after the same expression has evaluated another document in between:
+	// the outcome for an input must not depend on which inputs were evaluated before (C05)
+	safeEval(e, warmDoc())
+	out3 := safeEval(e, input)
+	if canon(out3) == canon(out) {
+		// ... and on a second compilation of the same text whose first evaluation saw another document
+		if e2, err2, p2 := safeCompile(src); err2 == nil && p2 == nil {
+			if len(vars) > 0 {
+				e2.RegisterVars(vars)
+			}
+			safeEval(e2, warmDoc())
+			out3 = safeEval(e2, input)
+		}
+	}
+	ev["same3"] = canon(out3) == canon(out)
+	if canon(out3) != canon(out) {
+		ev["out3"] = out3
+	}
 	return ev
+}
+
+func warmDoc() interface{} {
+	return map[string]interface{}{"a": []interface{}{map[string]interface{}{"b": float64(7), "k": float64(3), "s": "w"}, float64(9)},
+		"b": "wzw", "c": map[string]interface{}{"a": "warm"}, "k": float64(4), "id": float64(99), "flag": true, "v": float64(42), "value": float64(7)}
+}
+
+// unprojectShared builds the document so that structurally equal sub-values are the same Go
+// object (shared sub-structures, C07).
+func unprojectShared(m interface{}, memo map[string]interface{}) interface{} {
+	mm, _ := m.(map[string]interface{})
+	switch mm["t"] {
+	case "arr", "obj":
+		key := canon(mm)
+		if v, ok := memo[key]; ok {
+			return v
+		}
+		var v interface{}
+		if mm["t"] == "arr" {
+			a, _ := mm["v"].([]interface{})
+			out := make([]interface{}, len(a))
+			for i := range a {
+				out[i] = unprojectShared(a[i], memo)
+			}
+			v = out
+		} else {
+			ps, _ := mm["m"].([]interface{})
+			out := make(map[string]interface{}, len(ps))
+			for _, p := range ps {
+				pp := p.([]interface{})
+				out[cpsToString(pp[0])] = unprojectShared(pp[1], memo)
+			}
+			v = out
+		}
+		memo[key] = v
+		return v
+	}
+	return unproject(m)
 }
 
 var _ = reflect.TypeOf
